@@ -57,6 +57,8 @@ alone_decode(void *coder_ptr, const lzma_allocator *allocator,
 {
 	lzma_alone_coder *coder = coder_ptr;
 
+	VERIF_VISIT(VERIF_D_ALONE_SEQ, coder->sequence);
+
 	while (*out_pos < out_size
 			&& (coder->sequence == SEQ_CODE || *in_pos < in_size))
 	switch (coder->sequence) {
